@@ -16,6 +16,8 @@ OK_STMTS = [
     'm = {"k": 1}; println(keys(m))', 'println("é\\t|")', 'try { throw "x" } catch e { println("caught", e) }',
     'fmt = import("fmt"); fmt.Println("via fmt")', 'os = import("os"); fmt2 = import("fmt"); fmt2.Fprintln(os.Stderr, "to stderr")',
     'y = func() { return [1, 2] }(); println(y[1])', '# a comment', '', 'var q = 5', 'println(defined("args"), defined("nosuch"))',
+    # the command runs the bytes it is given: carriage returns inside raw strings, tabs, form feeds
+    'println(len(`a\r\nb`))', 'print(`x\r\ny`)', 's = `l1\r\nl2\r\n`; if len(s) != 8 { throw "rewritten" }; println("raw ok")', 'println(len("t\tq"), len(`\f`))',
 ]
 RUN_FAIL = ['undefined_name', 'throw "boom"', 'nil.x', '[1][5]', 'import("nosuch")', 'toInt()', 'x = 1; x()', 'nosuch.b = 1',
             'throw "two\\nlines"', 'break', 'continue', 'if true { break }', 'load("nosuch.ank")', 'c = make(chan int64); close(c); close(c)', 'return 1; nosuch()', 'func() { return missing }()', 'range(1, 2, 0)', 'len(1)']
@@ -37,7 +39,7 @@ def gen_case(rnd, i):
         stmts.insert(rnd.randint(0, len(stmts)), rnd.choice(RUN_FAIL))
     if kind == "parse":
         stmts.insert(rnd.randint(0, len(stmts)), rnd.choice(PARSE_FAIL))
-    src = rnd.choice(["\n", "; ", "\n\n"]).join(stmts) if kind != "empty" else rnd.choice(["", " ", "\n", "# only a comment"])
+    src = rnd.choice(["\n", "; ", "\n\n", "\r\n", "\n\t"]).join(stmts) if kind != "empty" else rnd.choice(["", " ", "\n", "# only a comment"])
     args = [rnd.choice(ARGS) for _ in range(rnd.choice([0, 0, 1, 2, 3]))]
     mode = rnd.choice(["file", "e"])
     c = {"id": i, "kind": kind, "src": src, "args": args, "mode": mode, "pre": [], "mid": []}
